@@ -471,7 +471,7 @@ class Env:
                 r = Res(i, klass, e.get("ra"), e.get("as_obj", False))
             self.objs[i] = r
             return r
-        if kind == "exc" and e.get("reraise_prev") and isinstance(self.objs.get(i - 1), Scripted) and getattr(self.objs[i - 1], "klass", None) == e["klass"]:
+        if kind == "exc" and e.get("reraise_prev") and i > 0 and self._script_entry(i - 1).get("kind") == "exc" and isinstance(self.objs.get(i - 1), Scripted) and getattr(self.objs[i - 1], "klass", None) == e["klass"]:
             # the very same exception instance again (a stored failure, Future.result() of a failed future)
             x = self.objs[i - 1]
             self.objs[i] = x
